@@ -157,11 +157,13 @@ let fs (toks : string list) : string =
   | FOk s0 ->
     let first = walk_all s0 in
     let rec go s last toks acc =
+      let emit s' ret r =
+        let w = walk_all s' in
+        if w = last then go s' last r ((ret ^ " @ =") :: acc)
+        else go s' w r ((ret ^ " @ " ^ w) :: acc) in
       let step o r =
         let (s', v) = fs_step su.comp su.decomp s o in
-        let w = walk_all s' in
-        if w = last then go s' last r ((show_obs v ^ " @ =") :: acc)
-        else go s' w r ((show_obs v ^ " @ " ^ w) :: acc) in
+        emit s' (show_obs v) r in
       match toks with
       | [] -> List.rev acc
       | "R" :: loc :: p :: r -> step (ORead (parse_l p, fs_loc loc)) r
@@ -173,6 +175,29 @@ let fs (toks : string list) : string =
       | "V" :: loc :: p :: r -> step (OResolve (parse_l p, fs_loc loc)) r
       | "L" :: loc :: p :: pat :: r -> step (OList (parse_l p, fs_pattern pat, fs_loc loc)) r
       | "S" :: loc :: p :: r -> step (OSubdirs (parse_l p, fs_loc loc)) r
+      (* typed helpers: the abstract parsers of the model are instantiated with functions that report the
+         codec parameters they were called with; the abstract serializers return the bytes given in the case *)
+      | "TA" :: loc :: p :: r ->
+        let v = fs_read_archive su.decomp (fun e _ -> Machine.Ok e) s (parse_l p) (fs_loc loc) in
+        emit s (show_res (fun e -> match e with Bytes.BE -> "ta:be" | Bytes.LE -> "ta:le") v) r
+      | "TT" :: loc :: p :: r ->
+        let v = fs_read_text_archive su.decomp (fun t e _ -> Machine.Ok (t, e)) s (parse_l p) (fs_loc loc) in
+        emit s (show_res (fun (t, e) -> "tt:" ^ (match t with ShiftJIS -> "sjis" | Unicode -> "utf16") ^ "-"
+                                        ^ (match e with Bytes.BE -> "be" | Bytes.LE -> "le")) v) r
+      | "TR" :: loc :: p :: k :: r ->
+        let pb = parse_l p and lc = fs_loc loc in
+        let ok = (fun b -> Machine.Ok b) in
+        let v = (match int_of_string k with
+                 | 0 -> fs_read_arc su.decomp ok s pb lc
+                 | 1 -> fs_read_fe9_arc su.decomp ok s pb lc
+                 | k -> fs_read_textures su.decomp (fun _ b -> Machine.Ok b) (n_of_int (k - 2)) s pb lc) in
+        emit s (show_res (fun _ -> "tr:same") v) r
+      | "WA" :: loc :: p :: _e :: _file :: ser :: r ->
+        let (s', v) = fs_write_archive su.comp (fun a -> Machine.Ok a) s (parse_l p) (parse_b ser) (fs_loc loc) in
+        emit s' (show_res (fun () -> "ok") v) r
+      | "WT" :: loc :: p :: _f :: _e :: _file :: ser :: r ->
+        let (s', v) = fs_write_text_archive su.comp (fun a -> Machine.Ok a) s (parse_l p) (parse_b ser) (fs_loc loc) in
+        emit s' (show_res (fun () -> "ok") v) r
       | x :: _ -> failwith ("fs: bad token " ^ x) in
     String.concat " ; " (go s0 first su.rest [("new:ok @ " ^ first)])
 
